@@ -99,9 +99,17 @@ impl AstModuleInspect for AstModule {
         ) -> Option<AutocompleteType> {
             // Utility function to get the span of a string literal without the quotes.
             fn string_span_without_quotes(codemap: &CodeMap, span: Span) -> ResolvedSpan {
+                // The span of an aliased symbol (`load("m", x = "sym")`) is the identifier `x`,
+                // which has no quotes to strip.
+                let quoted = matches!(
+                    codemap.source_span(span).as_bytes().first(),
+                    Some(b'"') | Some(b'\'')
+                );
                 let mut span = codemap.resolve_span(span);
-                span.begin.column += 1;
-                span.end.column -= 1;
+                if quoted {
+                    span.begin.column += 1;
+                    span.end.column -= 1;
+                }
                 span
             }
 
